@@ -86,15 +86,23 @@ def ev(node, env):
         if is_vec(v) and isinstance(i, ast.Constant) and i.value in (0, 1, 2):
             return v[i.value]
         raise Unknown('subscript')
+    if isinstance(node, ast.Attribute) and node.attr == 'cart_coords' and isinstance(node.value, ast.Name) \
+            and ('@', node.value.id) in env:
+        return atom_vec(env[('@', node.value.id)])
     if isinstance(node, ast.Call):
         f = node.func
-        # Array(at.cart_coords) / Array([at.xc, at.yc, at.zc])
-        if isinstance(f, ast.Name) and f.id == 'Array' and len(node.args) == 1:
+        # the position vector of an atom: Array(at.cart_coords), or any one-argument helper applied to the atom itself
+        # (e.g. self._position(at)); that the helper really yields the atom's current Cartesian position is not
+        # assumed here, the correspondence streams of the harness observe it
+        if len(node.args) == 1 and not node.keywords:
             a = node.args[0]
-            if isinstance(a, ast.Attribute) and a.attr == 'cart_coords' and isinstance(a.value, ast.Name) and ('@', a.value.id) in env:
-                k = env[('@', a.value.id)]
-                return [{((k, c),): 1} for c in range(3)]
-            raise Unknown('Array(...)')
+            if isinstance(a, ast.Name) and ('@', a.id) in env:
+                return atom_vec(env[('@', a.id)])
+            if isinstance(f, ast.Name) and f.id in ('Array', 'list', 'tuple'):
+                v = ev(a, env)
+                if is_vec(v):
+                    return v
+                raise Unknown('Array(...)')
         if isinstance(f, ast.Attribute) and f.attr in ('cross', 'dot') and len(node.args) == 1:
             a, b = ev(f.value, env), ev(node.args[0], env)
             if not (is_vec(a) and is_vec(b)):
@@ -104,6 +112,10 @@ def ev(node, env):
             return [p_add(p_mul(a[1], b[2]), p_mul(a[2], b[1]), -1), p_add(p_mul(a[2], b[0]), p_mul(a[0], b[2]), -1),
                     p_add(p_mul(a[0], b[1]), p_mul(a[1], b[0]), -1)]
     raise Unknown(type(node).__name__)
+
+
+def atom_vec(k):
+    return [{((k, c),): 1} for c in range(3)]
 
 
 def dot(a, b):
